@@ -34,7 +34,7 @@ def worker(job):
         preset = [{"dtype": d0, "dims": full}, {"dtype": rng.choice(["bool", "bool", d0]), "dims": unit},
                   {"dtype": rng.choice(["bool", "nbool", d0]), "dims": rng.choice([full, unit])}]
         fam = ["nullable", "nullable", "where", "binary", "logical", "cmp", "layout", "creation"]
-    prog = progs.generate(rng, seed=seed, families=fam, preset_inputs=preset,
+    prog = progs.generate(rng, seed=seed, families=fam, size_generic=True, preset_inputs=preset, erase_static=(preset is None and seed % 4 == 2),
                           sizes={"A": rng.choice([1, 2, 3]), "B": rng.choice([1, 2, 3])})
     if prog is None:
         return None
